@@ -23,7 +23,7 @@ import random
 from collections import Counter
 
 from . import model
-from .model import ModelError, MSig, MVar, MArr, MVal, Ctx, NS
+from .model import MRec, ModelError, MSig, MVar, MArr, MVal, Ctx, NS
 from . import mv
 from .harness import load_source, unload, compile_top, Rejected, violation
 from .vsim import Meta, Uninit, Unsupported, fmt
@@ -253,7 +253,13 @@ def render_function(ref, name, params, body, coro, ind, is_process=False):
 
 
 def render_cohdl(spec, cname):
-    L = [HEADER, f"class {cname}(Entity):", "    clk = Port.input(Bit)"]
+    L = [HEADER]
+    for n, noreset, fields in spec.get('recs', []):
+        L.append(f"class {cname}_{n}(std.Record):")
+        for fn, k, w, d in fields:
+            L.append(f"    {fn}: {tsrc(k, w)}")
+        L.append("")
+    L += [f"class {cname}(Entity):", "    clk = Port.input(Bit)"]
     for n, k, w in spec['inputs']:
         L.append(f"    {n} = Port.input({tsrc(k, w)})")
     for o in spec['outs']:
@@ -279,6 +285,9 @@ def render_cohdl(spec, cname):
         if len(o) > 4 and o[4]:
             args.append("noreset=True")
         L.append(f"        {n} = Variable[{tsrc(k, w)}]({', '.join(args)})")
+    for n, noreset, fields in spec.get('recs', []):
+        args = ', '.join(f"{fn}={dsrc(k, w, d)}" for fn, k, w, d in fields)
+        L.append(f"        {n} = std.{'NoresetSignal' if noreset else 'Signal'}[{cname}_{n}]({args})")
     for n, k, w, cnt, is_sig, d in spec.get('arrs', []):
         q = 'Signal' if is_sig else 'Variable'
         init = '' if d is None else '[' + ', '.join(dsrc(k, w, x) for x in d) + '], '
@@ -345,6 +354,8 @@ def render_ref(spec):
         L.append(f"    {n} = api.var({n!r}, {k!r}, {w!r}, {d!r}, {bool(len(o) > 4 and o[4])})")
     for n, k, w, cnt, is_sig, d in spec.get('arrs', []):
         L.append(f"    {n} = api.arr({n!r}, {k!r}, {w!r}, {cnt!r}, {is_sig!r}, {d!r})")
+    for n, noreset, fields in spec.get('recs', []):
+        L.append(f"    {n} = api.rec({n!r}, {[tuple(f) for f in fields]!r}, {bool(noreset)})")
     for ctx in spec['ctxs']:
         for h in ctx.get('helpers', []):
             L += render_function(True, h['name'], h['params'], h['body'], False, 1)
@@ -422,6 +433,11 @@ class _Api:
         self.ref.locals_[n] = a
         return a
 
+    def rec(self, n, fields, noreset):
+        r = MRec(n, fields, noreset)
+        self.ref.locals_[n] = r
+        return r
+
 
 class Ref:
     """one live instance of the reference rendering of a design"""
@@ -459,7 +475,7 @@ class Ref:
         out = []
         for n in names:
             h = self.lookup(n)
-            out.extend(h.elems if isinstance(h, MArr) else [h])
+            out.extend(h.elems if isinstance(h, (MArr, MRec)) else [h])
         return out
 
     def set_inputs(self, vals):
